@@ -50,11 +50,21 @@ fn regular_table(rng: &mut Rng, tokn: &mut usize, allow_empty: bool, nested: boo
             let mut tok = String::new();
             let content = if allow_empty && kind == 0 {
                 String::new()
-            } else if nested && depth > 0 && kind == 1 {
+            } else if nested && depth > 0 && (kind == 1 || kind == 6) {
                 let (t, _) = regular_table(rng, tokn, false, false, depth - 1);
                 *tokn += 1;
                 tok = format!("t{}x", *tokn);
-                format!("{}{}", tok, t)
+                // the nested table first (its top border collapses into the rule above),
+                // last (bottom border collapses), alone, or after some text
+                match rng.below(4) {
+                    0 => format!("{}{}", tok, t),
+                    1 => format!("{}{}", t, tok),
+                    2 => {
+                        tok = String::new();
+                        t
+                    }
+                    _ => format!("{}{}{}", tok, t, "z"),
+                }
             } else {
                 *tokn += 1;
                 tok = format!("t{}x", *tokn);
